@@ -8,14 +8,15 @@ from harness.runner import BCheck
 from scenario import bam as BAM, phasing as PH, vcf as V
 
 LEVEL = "exploration"
-LEVEL_TEXT = ("Heuristic solver: only output constraints are specified. Bounded stand-in: whole `whatshap polyphase` runs on generated polyploid BAM/VCF scenarios (ploidy 2-4, "
+LEVEL_TEXT = ("Deductive part (vcgen/z3, all inputs): a LOOP-BODY contract for the translation of cut positions into phase sets in phase_single_individual (the loop verified as a unit): every read-covered variant of an interval [cuts[k], cuts[k+1]) ends up in the component named by the position of the first variant of that interval, also when variant positions are adjacent (the extra position+1 keys are always overwritten by the right value) (contracts/polyphase_py.py). "
+              "Heuristic solver: only output constraints are specified. Bounded stand-in: whole `whatshap polyphase` runs on generated polyploid BAM/VCF scenarios (ploidy 2-4, "
               "SNVs incl. variants 1 bp apart, uneven coverage, isolated variants covered only by uninformative reads, block-cut sensitivities 0-5, --min-overlap 2-3, "
               "--only-snvs): every phased genotype is a permutation of the input genotype, only heterozygous calls are phased, the rest of the VCF is passed through, and "
               "the phase sets of a sample are disjoint position intervals each named by (and containing, if phased) its first variant. Deductive contracts for "
               "compute_cut_positions / the component loops of phase_single_individual are planned.")
 LEVEL_NOTE = "Seeded sampling. Trusted: scenario generator and the independent VCF differ."
 TECHNIQUE = "bounded runtime contract on run_polyphase output (genotype conformance, pass-through, interval structure) over generated polyploid scenarios"
-D_MODULES = []
+D_MODULES = ["contracts.polyphase_py"]
 EXPLANATION = LEVEL_TEXT
 TRUSTED_BASE = ["scenario/bam.py", "runtime/vcfdiff.py"]
 ASSUMPTIONS = ["genotypes are not distrusted"]
